@@ -169,17 +169,20 @@ def forger_family(run, h, pts, batch, rng, M, M2, tok, old, st, nonce, amt, ctx)
     V.append(("close_tag_plus1", {"close1": (CLOSE + 1) % Q}))
     V.append(("old_lock_mismatch", {"rev": (old[2] + 1) % Q}))
     V.append(("new_lock_mismatch", {"close2": (nlock + 1) % Q}))
-    V.append(("close_balance_differs", {"close3": (ncb + 1) % Q}))
+    V.append(("close_customer_balance_differs", {"close3": (ncb + 1) % Q}))
+    V.append(("close_merchant_balance_differs", {"close4": (nmb + 1) % Q}))
+    V.append(("close_merchant_balance_zero", {"close4": 0 if nmb else 5}))
+    V.append(("close_channel_id_differs", {"close0": (old[0] + 1) % Q}))
+    V.append(("new_merchant_balance_only", {"new4": nmb + 1 if in_range(nmb + 1) else nmb - 1}))
     V.append(("token_of_another_key", {"tok": "foreign"}))
     V.append(("tampered_token", {"tok": (tok[0], (tok[1] + 1) % Q)}))
     V.append(("token_on_other_state", {"old3": (old[3] + 1) % Q}))
-    if run.tier == "quick":
-        must = [v for v in V if v[0] in ("wrong_nonce", "close_tag_replaced", "foreign_channel_id")]
-        V = must + rng.sample([v for v in V if v not in must], 6)
     strategies = ["a_honest_algorithm", "c_independent_scalars", "d_solve_revealed_scalars", "d_solve_T"]
     for name, dev in V:
         for strat in strategies:
-            if run.tier == "quick" and rng.random() < 0.5 and strat in ("c_independent_scalars", "d_solve_T"):
+            # quick: every variant with the per-relation strategy (c) - each verifier equation is violated alone at least
+            # once per run - plus a sample of the other strategies; thorough: everything
+            if run.tier == "quick" and strat != "c_independent_scalars" and rng.random() < 0.6:
                 continue
             attempt(run, h, pts, batch, rng, M, M2, tok, old, true_new, nonce, amt, ctx, name, dev, strat)
 
@@ -191,7 +194,7 @@ def attempt(run, h, pts, batch, rng, M, M2, tok, old, true_new, nonce, amt, ctx,
         if "new%d" % k in dev:
             new[k] = dev["new%d" % k] % Q
     newc = [new[0], CLOSE, new[2], new[3], new[4]]
-    for k in (1, 2, 3):
+    for k in (0, 1, 2, 3, 4):
         if "close%d" % k in dev:
             newc[k] = dev["close%d" % k]
     oldm = list(old)
@@ -218,6 +221,8 @@ def attempt(run, h, pts, batch, rng, M, M2, tok, old, true_new, nonce, amt, ctx,
         for slot in (0, 3, 4):
             if newc[slot] != new[slot]:
                 o[("c", slot)] = rand_nz(rng)
+        if new[4] != (oldm[4] + amount_pub) % Q and "new4" in dev and "new3" not in dev:
+            pass
         if newc[2] != new[2]:
             o[("c", 2)] = rand_nz(rng)
         if new[0] != oldm[0]:
